@@ -233,7 +233,7 @@ def run_batch(prop, seed, n_runs, workers, start=0, progress=None,
                 for f in rec["failures"]:
                     f = dict(f)
                     f["i"] = rec["i"]
-                    f["plan"] = rec["plan"]
+                    f["plan"] = f.pop("plan_override", None) or rec["plan"]
                     agg["failures"].append(f)
                 if rec["i"] < start + 4 and "plan" in rec:
                     agg["samples"].append((rec["i"], rec["plan"]))
